@@ -23,6 +23,7 @@ Ev(e) ==
     [] e.ev = "HandshakeDone" -> HandshakeDone(e.expiry, R(e))
     [] e.ev = "Tick" -> Tick(e.now, R(e))
     [] e.ev = "Sweep" -> Sweep(R(e))
+    [] e.ev = "Packet" -> Packet(e.seq, e.to, R(e))
     [] e.ev = "Close" -> Close(e.mode, e.until, R(e))
     [] e.ev = "Panic" -> UNCHANGED vars
 TraceInit == /\ l = 1 /\ received = {0} /\ maxRPT = 0 /\ reported = {} /\ held = [active |-> 0, queue |-> {}, probing |-> {}]
